@@ -216,9 +216,13 @@ def check_history(sim: world.Sim, prop: str, ctx_base: dict) -> Violation | None
     agree in op and byte sizes (DESIGN 3.4)."""
     seqs = pg_creation_sequences(sim)
     ref = [x[0] for x in seqs[0]]
+    # a world that was stopped early (a rank raised / was left waiting) leaves ranks at different points of the same
+    # sequence: there the sequences only have to be prefix-compatible
+    aborted = sim.outcome != "ok"
     for r in range(1, sim.n):
         mine = [x[0] for x in seqs[r]]
-        if mine != ref:
+        k = min(len(mine), len(ref))
+        if (mine[:k] != ref[:k]) if aborted else (mine != ref):
             # first divergence + call site
             i = next((k for k in range(max(len(mine), len(ref))) if k >= len(mine) or k >= len(ref) or mine[k] != ref[k]), 0)
             site = (seqs[r][i][1] if i < len(seqs[r]) else None) or (seqs[0][i][1] if i < len(seqs[0]) else None)
@@ -247,7 +251,7 @@ def check_history(sim: world.Sim, prop: str, ctx_base: dict) -> Violation | None
             s = by_rank.get(r, [])
             if ref_seq is None:
                 ref_seq = s
-            elif s != ref_seq:
+            elif (s[: min(len(s), len(ref_seq))] != ref_seq[: min(len(s), len(ref_seq))]) if aborted else (s != ref_seq):
                 return Violation(
                     prop, "collective_mismatch", -1, {**ctx_base, "group": list(ranks), "rank": r, "len_a": len(ref_seq), "len_b": len(s)}
                 )
